@@ -82,6 +82,9 @@ EXTRA_CORPUS = {
         "B 10 assume C lt E 1 1 0 0 ; assume C lt E 1 1 1 0 ; assume C le E 3 -1 0 -1 1 2 2 0 | E 0 1 0 2 1 3 2 3 3 4 3 5 4 6 5 6 6 7 6 8 7 9 8 9 9 10",
         # 1000x + 1000 = 0, x < 0 gave bottom although x = -1
         "cfg 5 1 4 | B 0  | B 1 assign 0 E 0 -1 | B 2 havoc 0 | B 3 assume C eq E 1 1000 0 1000 ; assume C lt E 1 1 0 0 | B 4  | E 0 1 0 2 1 3 2 3 3 4",
+        # unbounded loops analysed with widening thresholds (a widening_thresholds that does not extrapolate never terminates)
+        "cfg 4 1 3 delay=1 desc=1 thr=5 | B 0 assign 0 E 0 0 | B 1  | B 2 arith add 0 0 k 1 | B 3  | E 0 1 1 2 2 1 1 3",
+        "cfg 4 2 3 delay=2 desc=2 thr=10 live=1 | B 0 assign 0 E 0 0 ; assign 1 E 0 0 | B 1  | B 2 assume C le E 1 1 0 -9 ; arith add 0 0 k 1 ; arith add 1 1 k 2 | B 3 assume C le E 1 -1 0 10 | E 0 1 1 2 2 1 1 3",
         # numerical_packing: a pack left at bottom by a division by zero (fwddoms-1)
         "cfg 2 2 1 | B 0 arith sdiv 0 1 k 0 ; arith add 0 1 v 1 | B 1  | E 0 1",
         "cfg 4 2 3 | B 0  | B 1 arith add 0 1 k 7 | B 2 assume C le E 1 1 0 -5 ; arith srem 1 1 k 0 | B 3  | E 0 1 0 2 1 3 2 3",
@@ -92,6 +95,8 @@ EXTRA_CORPUS = {
         "cfg 11 3 10 check=1 nasserts=1 | B 0  | B 1 assign 0 E 0 -1 | B 2 havoc 0 | B 3  | B 4 assign 1 E 0 -1 | B 5 havoc 1 | B 6  | B 7 assign 2 E 0 -1 | B 8 havoc 2 | B 9  | "
         "B 10 assume C lt E 1 1 0 0 ; assume C lt E 1 1 1 0 ; assume C le E 3 -1 0 -1 1 2 2 0 ; assert C le E 1 1 2 2 1 | E 0 1 0 2 1 3 2 3 3 4 3 5 4 6 5 6 6 7 6 8 7 9 8 9 9 10",
         "cfg 5 1 4 check=1 nasserts=1 | B 0  | B 1 assign 0 E 0 -1 | B 2 havoc 0 | B 3 assume C eq E 1 1000 0 1000 ; assume C lt E 1 1 0 0 | B 4 assert C le E 1 1 0 5 1 | E 0 1 0 2 1 3 2 3 3 4",
+        "cfg 4 1 3 delay=1 desc=1 thr=5 check=1 nasserts=2 | B 0 assign 0 E 0 0 | B 1  | B 2 arith add 0 0 k 1 ; assert C le E 1 -1 0 0 1 | B 3 assert C le E 1 -1 0 0 2 | E 0 1 1 2 2 1 1 3",
+        "cfg 4 2 3 delay=2 desc=2 thr=10 live=1 check=1 nasserts=2 | B 0 assign 0 E 0 0 ; assign 1 E 0 0 | B 1  | B 2 assume C le E 1 1 0 -9 ; arith add 0 0 k 1 ; arith add 1 1 k 2 ; assert C le E 1 -1 1 0 1 | B 3 assume C le E 1 -1 0 10 ; assert C le E 1 -1 1 19 2 | E 0 1 1 2 2 1 1 3",
         "cfg 2 2 1 check=1 nasserts=1 | B 0 arith sdiv 0 1 k 0 ; arith add 0 1 v 1 | B 1 assert C le E 1 1 0 0 1 | E 0 1",
         "cfg 4 2 3 check=1 nasserts=1 | B 0  | B 1 arith add 0 1 k 7 | B 2 assume C le E 1 1 0 -5 ; arith srem 1 1 k 0 | B 3 assert C le E 2 1 0 -1 1 -7 1 | E 0 1 0 2 1 3 2 3",
         "cfg 3 2 1 entry=1 check=1 nasserts=1 | B 0 assert C le E 1 -1 1 10 1 | B 1 assume C le E 1 -1 1 10 | B 2 assign 1 E 2 3 0 -2 1 10 | E 0 2 2 1 1 0",
@@ -204,15 +209,17 @@ def norm_msg(out_lines):
     return t.strip()[:300]
 
 
-def run_cases(exe, mode, lines, path, timeout=900, per_run=40):
+def run_cases(exe, mode, lines, path, timeout=900, per_run=40, max_timeouts=3):
     """CRAB_ERROR / crash end the process: the case gets 'ABORT <message>' and the run restarts after it; a run that
-    gives no further answer within `per_run` seconds marks its case 'ABORT timeout'"""
+    gives no further answer within `per_run` seconds marks its case 'ABORT timeout' (after `max_timeouts` of them the
+    remaining cases are not run: 'SKIPPED')"""
     with open(path, "w") as f:
         f.write("\n".join(lines) + "\n")
     res = {}
     start = 0
     t0 = time.time()
     n = len(lines)
+    ntimeouts = 0
     while start < n and time.time() - t0 < timeout:
         rc, out = vlib.sh([exe, "--mode=" + mode, path, str(start)], timeout=max(per_run, 0.5 * (n - start)))
         last = start - 1
@@ -230,6 +237,12 @@ def run_cases(exe, mode, lines, path, timeout=900, per_run=40):
             break
         res[last + 1] = "ABORT " + ("timeout (no answer)" if rc == 124 else norm_msg(ol))
         start = last + 2
+        if rc == 124:
+            ntimeouts += 1
+            if ntimeouts >= max_timeouts:
+                for i in range(start, n):
+                    res[i] = "SKIPPED"
+                break
     return [res.get(i, "MISSING") for i in range(n)]
 
 
@@ -302,6 +315,9 @@ def run_domain(prop, tier, seed, dom, exe, known, n=None, lines=None):
             for v in (cfgprog.parse_verdicts(a) or {}).values():
                 for ch in v:
                     letters[ch] = letters.get(ch, 0) + 1
+        if a == "SKIPPED":
+            st["skipped_after_timeouts"] = st.get("skipped_after_timeouts", 0) + 1
+            continue
         try:
             w = judge(prop, l, a)
         except Exception as e:
